@@ -17,7 +17,7 @@ TB = [
 ]
 AS = [
     "SBT: only the leaves (signatures) are modelled, not the internal nodes (C13); which of two equal-md5 leaves gets the `_0` name depends on tree order and is canonicalised away",
-    "LCA databases: identifiers are the signature names (unnamed signatures are not generated for LCA); lineages are not modelled (C18); only (name, md5, hashes) of what an LCA database returns is compared",
+    "LCA databases: identifiers are the signature names (unnamed signatures are not generated for LCA); lineages are not modelled (C18); only (name, md5, hashes) of what an LCA database returns is compared by the oracle",
     "a single JSON file is written in one session (a second session on the same path truncates it, by design)",
 ]
 RULE = ("a set of 0..11 signatures (pools of 1-4 hash sets and 3-4 names, so equal md5 under different names and exact duplicates are frequent; "
